@@ -47,8 +47,7 @@ def regs(b, m, mode, kind):
     reg = lib.sym_regs(b, m, kind, names)
     if mode == 'RGB':
         for n in ('red', 'green', 'blue'):
-            b.assume(reg.attrs[n].t >= 0)
-            b.assume(reg.attrs[n].t <= 100)
+            b.between(reg.attrs[n], 0, 100)
     return reg
 
 
